@@ -67,6 +67,7 @@ def check(rep: Report, ctx: Ctx) -> None:
     r115(rep, ctx)
     r116(rep, ctx)
     r122(rep, ctx)
+    r124(rep, ctx)
 
 
 def r18(rep: Report, ctx: Ctx) -> None:
@@ -910,3 +911,22 @@ def r122(rep: Report, ctx: Ctx) -> None:
            fi=fi, node=marks[0].node if marks else fi.node,
            detail="; ".join(", ".join(a[:70] for a in e.args)
                             for e in marks) or "<no marking call>")
+
+
+def r124(rep: Report, ctx: Ctx) -> None:
+    """(shared with C07 R7.19 / R7.20)  A loop member that always forks into
+    one branch inside and one outside the loop: classified as a break, the
+    diagram leaves the loop after the first pass and rejects the jobs it was
+    learned from."""
+    from . import c07
+    rep.rule("R1.24", "the loop classifier sees the whole graph and an "
+             "overlap map that groups co-occurring successors for every "
+             "event (= C07 R7.19, R7.20)", 10)
+    sub = Report("C07", ctx.index)
+    sub.rule("R7.19", "", 0)
+    c07.r719(sub, ctx)
+    c07.overlap_map(sub, ctx, "R7.20")
+    for o in sub.obligations:
+        o.rule = "R1.24"
+        rep.obligations.append(o)
+    rep.funcs_seen |= sub.funcs_seen
